@@ -241,7 +241,7 @@ fn cmd_run(args: &[String]) -> i32 {
         for _ in 0..threads.max(1) {
             // same stack as the per-program threads, so that --baseline-only and exploration
             // cannot differ by stack depth
-            std::thread::Builder::new().stack_size(16 << 20).spawn_scoped(sc, || {
+            let _worker = std::thread::Builder::new().stack_size(16 << 20).spawn_scoped(sc, || {
                 silence_hooks_thread();
                 let my = wid.fetch_add(1, Ordering::Relaxed);
                 let mut progress = progress_dir.as_ref().and_then(|d| {
